@@ -31,9 +31,10 @@ def run(rep):
         apalache.shape_lemmas(rep)
         from .. import proofs
         proofs.attach(rep, "HelpersProofs")
+        proofs.attach(rep, "DWT1Proofs")
         proofs.attach(rep)       # TLAPS: the extension maps / helper transcriptions of Idx.tla for all sizes
     fnd = Findings()
-    res, table = dwtmodel.run_ops(rep, rep.tier, ["AnalysisOK", "AnalysisDevExact"])
+    res, table = dwtmodel.run_ops(rep, rep.tier, ["AnalysisOK", "AnalysisDevExact", "ScalarFormOK"])
     calls = dwtmodel.run_calls(rep, rep.tier, ["FwdShapesOK", "FwdRaiseOK", "FwdChain"], {"fwd"})
     dwtchecks.analysis_one_level(rep, fnd, table, "C01")
     dwtchecks.analysis_multi_level(rep, fnd, table, calls.records, "C01")
